@@ -22,9 +22,9 @@ type StepCtx struct {
 	Cfg             Cfg
 	Event           Event
 	Before, After   Status
-	FusedDownBefore bool // reference: replica was down and the breaker had fired since it was last up
+	FusedDownBefore []bool // reference, per replica: it was down and its breaker had fired since it was last up
 	X               Expect
-	ImplN, ImplNeed int64 // gradual strategy counters of the implementation after the event (-1: n/a)
+	ImplN, ImplNeed []int64 // per replica: gradual strategy counters of the implementation after the event (-1: n/a)
 	Died            string
 }
 
@@ -59,7 +59,7 @@ func expand(e Event) []Event {
 		if i > 0 {
 			out = append(out, Event{K: "T", D: PingPeriod})
 		}
-		out = append(out, Event{K: e.K, A: e.A})
+		out = append(out, Event{K: e.K, A: e.A, B: e.B})
 	}
 	return out
 }
@@ -80,7 +80,10 @@ func Replay(c Cfg, hist []Event, oracle Oracle) result {
 	var res result
 	for i, me := range hist {
 		for _, e := range expand(me) {
-			sc := &StepCtx{Cfg: c, Event: e, Before: w.Status(), FusedDownBefore: ref.FusedDown, ImplN: -1, ImplNeed: -1}
+			sc := &StepCtx{Cfg: c, Event: e, Before: w.Status()}
+			for _, p := range ref.Rep {
+				sc.FusedDownBefore = append(sc.FusedDownBefore, p.FusedDown)
+			}
 			sc.X = ref.Step(e)
 			w.Apply(e)
 			if w.Now != ref.Now {
@@ -88,10 +91,20 @@ func Replay(c Cfg, hist []Event, oracle Oracle) result {
 			}
 			sc.After = w.Status()
 			sc.Died = w.Died
-			if g, ok := w.Replica.RecoveryStrategy.(*backend.GradualRecoveryStrategy); ok {
-				sc.ImplN, sc.ImplNeed, _, _ = backend.VerifGradualState(g)
+			for _, node := range w.Reps {
+				n, need := int64(-1), int64(-1)
+				if g, ok := node.RecoveryStrategy.(*backend.GradualRecoveryStrategy); ok {
+					n, need, _, _ = backend.VerifGradualState(g)
+				}
+				sc.ImplN, sc.ImplNeed = append(sc.ImplN, n), append(sc.ImplNeed, need)
 			}
-			rule := sc.X.ReplicaRule
+			rule := sc.X.Rep[0].Rule
+			if len(sc.X.Rep) > 1 {
+				rule += " | " + sc.X.Rep[1].Rule
+			}
+			if e.K == "E" || e.K == "L" {
+				rule = sc.X.Rep[e.I].Rule
+			}
 			if e.K == "M" {
 				rule = sc.X.MasterRule
 			}
@@ -103,25 +116,57 @@ func Replay(c Cfg, hist []Event, oracle Oracle) result {
 				feat["policy"] = c.Policy
 				feat["master"] = b2s(sc.Before.MasterUp)
 				feat["event"] = e.K
+				feat["replicas"] = fmt.Sprint(c.NRep())
 				res.xr.Violation = fmt.Sprintf("step %d (%s at t=+%d): %s", i, e.String(), w.Now-c.Start, msg)
 				res.xr.Features = feat
 				return res
 			}
 			ref.Commit(sc.After)
 			if i == len(hist)-1 {
-				res.xr.Outcome = fmt.Sprintf("%s m:%s>%s r:%s>%s %s", e.K, b2s(sc.Before.MasterUp), b2s(sc.After.MasterUp), b2s(sc.Before.ReplicaUp), b2s(sc.After.ReplicaUp), rule)
+				res.xr.Outcome = fmt.Sprintf("%s m:%s>%s r0:%s>%s r1:%s>%s %s", e.K, b2s(sc.Before.MasterUp), b2s(sc.After.MasterUp), b2s(sc.Before.ReplicaUp[0]), b2s(sc.After.ReplicaUp[0]), b2s(sc.Before.ReplicaUp[1]), b2s(sc.After.ReplicaUp[1]), rule)
 			}
 		}
 	}
 	res.xr.Key = w.Key() + " | " + ref.Key()
 	st := w.Status()
-	res.nontriv = !st.MasterUp || !st.ReplicaUp || ref.Fused || ref.Need > 0
+	res.nontriv = !st.MasterUp || !st.ReplicaUp[0] || !st.ReplicaUp[1] || ref.AnyFusedOrPending()
 	return res
 }
 
 // Alphabet lists the events enabled after a history of the given length.
 func Alphabet(c Cfg, depth int, fullOutcomeDepth int, macro bool) []Event {
 	var es []Event
+	if c.NRep() == 2 {
+		// two replicas in one group: reduced outcome alphabet, every event addresses a replica
+		for _, a := range []string{"ok", "conn_fail"} {
+			for _, b := range []string{"ok", "conn_fail"} {
+				es = append(es, Event{K: "R", A: a, B: b})
+			}
+		}
+		if macro && c.Policy == "gradual" {
+			es = append(es, Event{K: "R", A: "ok", B: "ok", N: 6})
+		}
+		for _, o := range MasterOutcomes {
+			es = append(es, Event{K: "M", A: o})
+		}
+		if c.Policy != "none" {
+			for i := 0; i < 2; i++ {
+				es = append(es, Event{K: "E", I: i}, Event{K: "L", I: i})
+			}
+		}
+		ds := []int64{1, PingPeriod, 2*PingPeriod + 1}
+		if c.Policy == "hard" {
+			ds = []int64{1, PingPeriod, c.Cooldown}
+		}
+		seen := map[int64]bool{}
+		for _, d := range ds {
+			if d > 0 && !seen[d] {
+				seen[d] = true
+				es = append(es, Event{K: "T", D: d})
+			}
+		}
+		return es
+	}
 	outs := ReplicaOutcomes
 	if depth >= fullOutcomeDepth {
 		outs = []string{"ok", "conn_fail", "lag_above", "lag_at", "sel1_fail"}
@@ -160,6 +205,7 @@ type Plan struct {
 	FullDepth int // all 13 replica outcomes are enabled below this depth, 5 representatives from there on
 	Oracle    Oracle
 	Assume    []string
+	thorough  bool
 }
 
 type childOut struct {
@@ -202,8 +248,15 @@ func exploreOne(p *Plan, c Cfg, deadline time.Time) *childOut {
 	outcomes := map[string]bool{}
 	viol := map[string]*childViol{}
 	sampleKinds := map[string]bool{}
+	depth := p.Depth
+	if c.Depth > 0 {
+		depth = c.Depth
+		if p.thorough {
+			depth += 2
+		}
+	}
 	spec := xstate.Spec[Event]{
-		MaxDepth: p.Depth, Workers: 1,
+		MaxDepth: depth, Workers: 1,
 		Stop:    func() bool { return time.Now().After(deadline) },
 		Enabled: func(h []Event) []Event { return Alphabet(c, len(h), p.FullDepth, true) },
 		Replay: func(h []Event) xstate.Result {
@@ -214,7 +267,7 @@ func exploreOne(p *Plan, c Cfg, deadline time.Time) *childOut {
 				}
 				// sample: histories whose last event changed a status
 				last := res.log[len(res.log)-1]
-				prev := Status{MasterUp: true, ReplicaUp: true}
+				prev := Status{MasterUp: true, ReplicaUp: [2]bool{true, true}}
 				if len(res.log) > 1 {
 					prev = res.log[len(res.log)-2].After
 				}
@@ -265,13 +318,13 @@ func exploreOne(p *Plan, c Cfg, deadline time.Time) *childOut {
 // process, because vclock is process-global), parent mode (spawn, merge, evidence).
 func Main(p *Plan) {
 	r := ev.Start(p.ID, p.Level)
-	p.Depth, p.FullDepth = pick(r, p.Depth), p.FullDepth
+	p.Depth, p.thorough = pick(r, p.Depth), r.Thorough()
 	var rc Case
 	if r.ReplayCase(&rc) {
 		res := Replay(rc.Cfg, rc.Hist, p.Oracle)
 		fmt.Printf("replay cfg=%+v\n", rc.Cfg)
 		for _, l := range res.log {
-			fmt.Printf("  t=+%-4d %-14s master=%-4s replica=%-4s  %s\n", l.T-rc.Cfg.Start, l.Event, b2s(l.After.MasterUp), b2s(l.After.ReplicaUp), l.Rule)
+			fmt.Printf("  t=+%-4d %-22s master=%-4s replica0=%-4s replica1=%-4s  %s\n", l.T-rc.Cfg.Start, l.Event, b2s(l.After.MasterUp), b2s(l.After.ReplicaUp[0]), b2s(l.After.ReplicaUp[1]), l.Rule)
 		}
 		fmt.Printf("violation=%q features=%v\n", res.xr.Violation, res.xr.Features)
 		if res.xr.Violation != "" {
@@ -364,7 +417,7 @@ func Main(p *Plan) {
 	r.Set("max_depth", maxDepth)
 	r.Set("depth_bound", p.Depth)
 	r.Set("configs", per)
-	r.Set("explanation", fmt.Sprintf("BFS over event histories (replica probe round with 13 scripted outcomes below depth %d and 5 representative ones from there on, 6 healthy rounds in a row for the gradual policy, master probe round ok/fail, client connection error through GetSlaveConn, late connection error through getConnWithFuse on the replica whatever its status, clock advances) to depth %d per configuration; every history is replayed on a fresh real Slice whose real health-check loop runs one tick of its ticker per round; states = distinct canonical (implementation state | reference state) keys; transitions = histories replayed = traces validated; distinct_nontrivial = distinct reached states in which a node is down, the breaker has fired or a recovery penalty is pending; distinct_outcomes = distinct (event kind, status change, deciding rule) observations", p.FullDepth, p.Depth))
+	r.Set("explanation", fmt.Sprintf("BFS over event histories (replica probe round with 13 scripted outcomes below depth %d and 5 representative ones from there on, 6 healthy rounds in a row for the gradual policy, master probe round ok/fail, client connection error through GetSlaveConn, late connection error through getConnWithFuse on the replica whatever its status, clock advances) to depth %d per configuration (two-replica configurations: their own reduced alphabet — probe ok / connection failure per replica, fuse through selection or late error on either replica, 3 clock advances — and the depth given in the configuration); every history is replayed on a fresh real Slice whose real health-check loop runs one tick of its ticker per round; states = distinct canonical (implementation state | reference state) keys; transitions = histories replayed = traces validated; distinct_nontrivial = distinct reached states in which a node is down, the breaker has fired or a recovery penalty is pending; distinct_outcomes = distinct (event kind, status change, deciding rule) observations", p.FullDepth, p.Depth))
 	for _, a := range p.Assume {
 		r.Assume(a)
 	}
